@@ -124,6 +124,7 @@ def clusterStep (s : ClusterSt) (toks : List String) : ClusterSt × String :=
       (s.setQueue a nd.id (q.drop k), s!"dropped={min k q.length}")
     | _, _ => (s, "bad-op")
   | ["queues"] => (s, queuesDesc s)
+  | "mark" :: _ => (s, "ok")        -- phase marker for the oracles (no effect)
   | ["qcof", name, blk] =>
     -- the certificate a (proposed, hence public) block carries, under a name of its own
     match s.w.c.blocks.lookup blk with
@@ -254,5 +255,104 @@ def clusterOracleStep (o : ClusterOr) (toks : List String) : ClusterOr × String
 
 -- @family "cluster.oracle" clusterOracle
 def clusterOracle : Fam := { σ := ClusterOr, init := {}, step := clusterOracleStep }
+
+end HsVerif.Drv
+
+namespace HsVerif.Drv
+open HsVerif.Model
+
+/-! Liveness oracle for the cluster (C05), judged on the IMPLEMENTATION's answers and the script's
+phase markers alone:
+  `mark sync members=<ids> chain=<k>` … `mark end`: between the markers the script delivers
+    everything the members send each other and fires their timers only when nothing is left to
+    deliver (the generator does that; the oracle trusts the marker, see DESIGN); every member must
+    commit a block it had not committed before, and must do so within 3·k views of the highest
+    view a member was in at the marker.
+  `mark fault-free chain=<k>` … `mark end`: all replicas live and synchronous from the start: no
+    view may end by timeout, and at the end every replica's committed block trails its highest
+    certified block by exactly k-1 views (so trails the newest proposal by k).
+Fast-HotStuff failures carry their own signatures (`fhs-…`): a recorded known finding. -/
+structure LiveOr where
+  fast : Bool := false
+  phase : String := ""                       -- "", "sync", "fault-free"
+  members : List Nat := []
+  chain : Nat := 3
+  view : List (Nat × Nat) := []              -- node ↦ current view
+  hqc : List (Nat × Nat) := []               -- node ↦ view of its high QC
+  commits : List (Nat × Nat) := []           -- node ↦ number of commit events so far
+  comView : List (Nat × Nat) := []           -- node ↦ view of the last committed block (from names P<v>, else tracked)
+  startView : Nat := 0
+  startCommits : List (Nat × Nat) := []
+  firstNew : List (Nat × Nat) := []          -- member ↦ highest member view when it first committed anew
+  timeouts : Nat := 0                        -- timeout view changes seen in a fault-free phase
+  blocks : List (String × Nat) := [("G", 0)] -- name ↦ view
+
+def setNat (k v : Nat) (l : List (Nat × Nat)) : List (Nat × Nat) := (k, v) :: l.filter (·.1 != k)
+
+def liveOracleStep (o : LiveOr) (toks : List String) : LiveOr × String :=
+  let (lhs, rhs) := splitArrow toks
+  match lhs with
+  | "cfg" :: _ => ({}, "pass")
+  | "node" :: _ :: rest => ({ o with fast := o.fast || field "rules" rest == some "fasthotstuff" }, "pass")
+  | "block" :: name :: rest => ({ o with blocks := match natField "view" rest with | some v => (name, v) :: o.blocks | none => o.blocks }, "pass")
+  | "mark" :: "sync" :: rest =>
+    let ms := ((field "members" rest).map fun s => (splitChar ',' s).filterMap (·.toNat?)).getD []
+    let sv := ms.foldl (fun m i => max m ((o.view.lookup i).getD 1)) 0
+    ({ o with phase := "sync", members := ms, chain := (natField "chain" rest).getD 3, startView := sv,
+              startCommits := ms.map fun i => (i, (o.commits.lookup i).getD 0), firstNew := [] }, "pass")
+  | "mark" :: "fault-free" :: rest =>
+    ({ o with phase := "fault-free", chain := (natField "chain" rest).getD 3, timeouts := 0 }, "pass")
+  | ["mark", "end"] =>
+    let o' := { o with phase := "" }
+    let pre := if o.fast then "fhs-" else ""
+    if o.phase == "sync" then
+      match o.members.find? (fun i => (o.firstNew.lookup i).isNone) with
+      | some i => (o', s!"fail {pre}no-progress replica {i} committed nothing new although the members {natList o.members} exchanged all their messages (views {natList (o.members.map fun j => (o.view.lookup j).getD 0)}, started at view {o.startView})")
+      | none =>
+        match o.firstNew.find? (fun p => p.2 > o.startView + 3 * o.chain) with
+        | some p => (o', s!"fail {pre}slow-progress replica {p.1} committed anew only at view {p.2}, more than {3 * o.chain} views after view {o.startView}")
+        | none => (o', "pass")
+    else if o.phase == "fault-free" then
+      if o.timeouts > 0 then (o', s!"fail {pre}fault-free-timeout {o.timeouts} views ended by timeout in a fault-free synchronous run")
+      else if o.view.any (fun p => p.2 ≤ o.chain + 1) || o.view.isEmpty then
+        (o', s!"fail {pre}fault-free-stall a fault-free synchronous run did not get past view {o.chain + 1}: views {natList (o.view.map (·.2))}")
+      else
+        match o.view.find? (fun p => p.2 > o.chain + 1 && (o.comView.lookup p.1).getD 0 + (o.chain - 1) != (o.hqc.lookup p.1).getD 0) with
+        | some p => (o', s!"fail {pre}fault-free-gap replica {p.1}: view {p.2}, highest certified view {(o.hqc.lookup p.1).getD 0}, committed view {(o.comView.lookup p.1).getD 0}, chain length {o.chain}")
+        | none =>
+          match o.view.find? (fun p => p.2 > 1 && (o.hqc.lookup p.1).getD 0 + 1 != p.2) with
+          | some p => (o', s!"fail {pre}fault-free-uncertified replica {p.1} is in view {p.2} but its highest certified block has view {(o.hqc.lookup p.1).getD 0}")
+          | none => (o', "pass")
+    else (o', "pass")
+  | kind :: rest =>
+    let node : Option Nat :=
+      if kind.startsWith "@" then (dropStr 1 kind).toNat? else if kind == "pump" then (rest.drop 1).head?.bind (·.toNat?) else none
+    match node with
+    | none => (o, "pass")
+    | some i =>
+      let effs := rhs.filter (· != ";")
+      let blocks := effs.foldl (fun bl t => match proposeOf t with
+        | some (nm, v, _) => if (bl.lookup nm).isSome then bl else (nm, v) :: bl
+        | none => bl) o.blocks
+      let nCommits := (commitsOf effs).length
+      let lastCom := (commitsOf effs).getLast?
+      -- the dump after the last "|" of the answer
+      let dump := (splitOn "|" rhs).getLast?.getD []
+      let v := (natField "view" dump).getD ((o.view.lookup i).getD 1)
+      let hq := (((field "hqc" dump).map (splitChar ':')).bind (·.head?)).bind (·.toNat?)
+      let tmo := (effs.filter fun t => t.startsWith "vc(" && t.endsWith ",timeout)").length
+      let o1 := { o with blocks := blocks, view := setNat i v o.view,
+                         hqc := match hq with | some h => setNat i h o.hqc | none => o.hqc,
+                         commits := setNat i ((o.commits.lookup i).getD 0 + nCommits) o.commits,
+                         comView := match lastCom with | some b => setNat i ((blocks.lookup b).getD 0) o.comView | none => o.comView,
+                         timeouts := o.timeouts + (if o.phase == "fault-free" then tmo else 0) }
+      if o1.phase == "sync" && o1.members.contains i && nCommits > 0 && (o1.firstNew.lookup i).isNone then
+        let top := o1.members.foldl (fun m j => max m ((o1.view.lookup j).getD 0)) 0
+        ({ o1 with firstNew := (i, top) :: o1.firstNew }, "pass")
+      else (o1, "pass")
+  | [] => (o, "pass")
+
+-- @family "clusterlive.oracle" clusterLiveOracle
+def clusterLiveOracle : Fam := { σ := LiveOr, init := {}, step := liveOracleStep }
 
 end HsVerif.Drv
